@@ -16,7 +16,7 @@ func main() {
 	r := drv.NewRand(cfg.Seed)
 	w := emit.NewWriter(cfg.Out, "C07_spec", 0, cfg.Only)
 	n := cfg.Count(240, 4000)
-	p := c04_hist.Profile{MaxOps: 14, MaxFlows: 2, MaxRefresh: 4, OfflinePct: 92, CodeAttacks: 10, RefreshOff: 12, RefreshAtk: 45, FlowMutation: 8, FaultPct: 6, DropPct: 22, HintPct: 6}
+	p := c04_hist.Profile{MaxOps: 14, MaxFlows: 2, MaxRefresh: 4, OfflinePct: 92, CodeAttacks: 10, RefreshOff: 12, RefreshAtk: 45, FlowMutation: 8, FaultPct: 6, DropPct: 22, HintPct: 6, ROPct: 8, KeepPct: 35, TwinPct: 4, OmitPct: 25}
 	if !cfg.Quick {
 		p.MaxOps, p.MaxFlows, p.MaxRefresh = 40, 3, 8
 	}
@@ -29,7 +29,7 @@ func main() {
 		w.Add(h.Case())
 	}
 	err := w.Close(emit.Meta{Property: "C07", Tier: cfg.Tier, Seed: cfg.Seed,
-		Rule: "one case = one history over a fresh provider: 1..N code flows (mostly with offline_access) followed by refresh chains (no scope / same / subset) with mutations (other client's credentials, wrong secret, bad assertion, superset / disjoint / duplicate scopes, rotated / foreign / unknown / missing refresh token), refresh support off in ~12%, a client without the refresh grant in ~16%; all-Provider, all-Legacy or mixed per operation. Non-trivial = the model's history contains a token response or a refusal beyond the first guards (path class != 0); distinct = distinct (input hash, path class).",
+		Rule: "one case = one history over a fresh provider: 1..N code flows (mostly with offline_access) followed by refresh chains (no scope / same / subset) with mutations (other client's credentials, wrong secret, bad assertion, superset / disjoint / duplicate scopes, rotated / foreign / unknown / missing refresh token), a quarter of the honest refreshes followed AT ONCE on the same router by the same request with credentials / client_id / secret / assertion / refresh_token omitted; storage policy rotate (65%) or keep-same (35%: CreateAccessAndRefreshTokens returns the presented token); refresh support off in ~12%, a client without the refresh grant in ~16%; all-Provider, all-Legacy or mixed per operation. Non-trivial = the model's history contains a token response or a refusal beyond the first guards (path class != 0); distinct = distinct (input hash, path class).",
 	})
 	if err != nil {
 		fmt.Fprintln(os.Stderr, err)
